@@ -29,6 +29,23 @@ PROPS = {
                 rule="one run = one simulated client/server connection (handshake, 1..12 data rounds, orderly close) "
                      "generated from H(VERIF_SEED, scenario, index); non-trivial = at least 3 context switches between "
                      "the endpoint tasks; distinct = distinct interleaving ids (hash of the sequence of (step, from-task, to-task) switches)"),
+    "C10": dict(level="fault_enumeration", design="4.3",
+                parts=[("mitm-hs", "plain", 12, 240, []), ("mitm-hs", "asan", 4, 48, [])],
+                quick_s=70, thorough_s=900, quick_max=200000, thorough_max=4000000,
+                expect_probes=["fault_fired"],
+                rule="one run = one honest client/server connection behind a record-aware interposer executing an explicit fault plan "
+                     "(single fault; thorough: 10% two-fault plans) drawn from the record layout of the run's fault-free twin: bit flips over "
+                     "the payload of every handshake record, drop, duplicate, swap-with-next, truncate, extend, inject (alert/CCS/garbage), replay, "
+                     "peer crash at a byte offset; non-trivial = the fault really fired on a record that passed the interposer and the twin passed the "
+                     "honest oracle; distinct = distinct (config, fault kind, direction, record, offset, bit, args) ids"),
+    "C11": dict(level="fault_enumeration", design="4.4",
+                parts=[("mitm-data", "plain", 12, 240, []), ("mitm-data", "asan", 4, 48, [])],
+                quick_s=70, thorough_s=900, quick_max=200000, thorough_max=4000000,
+                expect_probes=["fault_fired"],
+                rule="one run = handshake plus 1..5 data rounds behind the interposer; the fault targets an application-data record of the live "
+                     "connection: bit flip (stratified over header, IV, body, MAC/padding/tag region, last byte), truncate/extend by 1..32 bytes with and "
+                     "without header fix-up, duplicate, replay of an earlier record, swap, drop, forged record; non-trivial = fault fired and twin passed; "
+                     "distinct = distinct (config, kind, direction, record, offset, bit, args) ids"),
 }
 
 ALL_VARIANTS = ["plain", "asan"]
